@@ -3,6 +3,7 @@ annotation and different iteration orders of one set/dict value must get the sam
 import json
 import _checker_common as K
 import _callable_common as KC
+import _intro_common as T
 
 RULE = ('as C01 (type-directed annotation terms, values generated to conform, corruptions, arbitrary values) and for every case up to three '
         're-spellings of the annotation (typing <-> PEP 585 at random nodes, Union / X|Y / Optional, shuffled Union members) and re-orderings '
@@ -72,6 +73,7 @@ def cases(rng, tier):
             for vt in vals:
                 out.append(add_alts(rng, K.mk_case(at, vt, kind='small')))
     out += KC.gen_cases(rng, tier)          # simple Callable signatures (separate model PedVerif.Callable), with re-spellings
+    out += [add_alts(rng, c) for c in T.extra_cases(rng, tier)]      # exits of the translated checker the generator meets rarely (ir tie)
     return out
 
 
@@ -80,18 +82,23 @@ def search(rng, tier, near):
 
 
 def run_impl(cases):
+    T.prepare(cases)
     kc = [c for c in cases if c['m'] == 'callable']
     kc_out = iter(KC.run_impl(kc)) if kc else iter(())
     out = []
     for c in cases:
         if c['m'] == 'callable':
             out.append(next(kc_out)); continue
+        T.fresh_typing()
         try:
             ao = K.build_ann(c['c']['ann'])
         except Exception as e:
             out.append({'out': 'unbuildable:' + type(e).__name__, 'alts': [], 'valts': []})
             continue
-        r = {'out': K.run_assert(ao, K.build_val_for_case(c)), 'alts': [], 'valts': []}
+        o, tr = T.run_assert_traced(ao, K.build_val_for_case(c), c)
+        r = {'out': o, 'alts': [], 'valts': []}
+        if tr is not None:
+            r['trace'] = tr
         for a2 in c['x'].get('alts', []):
             r['alts'].append(K.run_assert(K.build_ann(a2), K.build_val_for_case(c)))
         for v2 in c['x'].get('valts', []):
@@ -134,6 +141,11 @@ def judge(case, impl, model):
                 break
     ann, val = case['c']['ann'], case['c']['val']
     nontrivial = ann[0] not in ('cls', 'any', 'none') or val[0] not in ('lit', 'inst')
-    return {'corr': corr, 'pfail': pfail, 'finding': finding, 'nontrivial': nontrivial,
-            'tag': f"{ann[0]}/{io.split(':')[0]}/spec={int(model['spec'])}/alts={len(impl['alts'])}",
-            'why': '' if corr else f'implementation {io} vs model {model["out"]}'}
+    j = {'corr': corr, 'pfail': pfail, 'finding': finding, 'nontrivial': nontrivial,
+         'tag': f"{ann[0]}/{io.split(':')[0]}/spec={int(model['spec'])}/alts={len(impl['alts'])}",
+         'why': '' if corr else f'implementation {io} vs model {model["out"]}'}
+    return T.apply(j, case, impl, model)      # + introspection record, `if` tests and statement trace of the interpreted translation
+
+
+def extra_coverage(results):
+    return T.coverage(results)
